@@ -518,6 +518,12 @@ def rule_f(ctx, out):
                     f"`{short(exits[0], 30)}`: the result is not the extreme over all elements", where(f, exits[0]))
         else:
             out.ok({"function": f.qual, "accumulates": accs, "loop": short(loop, 50)})
+    # the same extreme written with the builtin over a comprehension takes every element by construction
+    for f in ctx.p.funcs_in("greedy.block_generation"):
+        for c in calls_in(f.node):
+            if call_name(c) in ("min", "max") and isinstance(c.func, ast.Name) and any(isinstance(x, (ast.ListComp, ast.GeneratorExp, ast.SetComp)) for a in c.args for x in ast.walk(a)):
+                n += 1
+                out.ok({"function": f.qual, "extreme": short(c, 60), "taken_over": "a comprehension (every element)"})
     if n < 2:
         raise AnalysisError(f"only {n} extremum loops found in the greedy module")
 
@@ -559,6 +565,110 @@ def rule_g(ctx, out):
                     "a load ordered after a pending store can then be emitted first", where(f, c))
 
 
+def order_guard(ctx):
+    """(holds, detail): greedy_from_json returns error = 0 only for a sequence that passed an order post-check.
+    Structure (must-pass-through): in greedy_from_json an `if` whose failing branch raises (or returns) tests a call that is given the ids
+    returned by compute and both dependence lists of the specification; it lies after the call to compute and dominates the statement that
+    sets the error code to 0.  Meaning (by evaluation): the called function, interpreted on every sequence over up to four accesses (with
+    and without a repeated access) and every set of ordering pairs over them, answers True only if every pair [a, b] with both accesses
+    present has a executed before b."""
+    if "C04.order_guard" in ctx.cache:
+        return ctx.cache["C04.order_guard"]
+    import itertools
+    from ..core.interp import ModuleInterp
+    from ..core.minieval import Unsupported, Raised
+    res = (False, "no order post-check found in greedy_from_json")
+    f = ctx.func(f"{GREEDY}.greedy_from_json")
+    cfg = ctx.cfg(f)
+    comp = [n for n in own_nodes(f.node) if isinstance(n, ast.Assign) and isinstance(n.value, ast.Call) and call_name(n.value) == "compute"
+            and isinstance(n.targets[0], (ast.Tuple, ast.List)) and len(n.targets[0].elts) == 2 and isinstance(n.targets[0].elts[1], ast.Name)]
+    # the error code is the last component of what the function returns, whatever it is called
+    rets = [n for n in own_nodes(f.node) if isinstance(n, ast.Return) and isinstance(n.value, ast.Tuple) and n.value.elts and isinstance(n.value.elts[-1], ast.Name)]
+    if not rets:
+        raise AnalysisError("greedy_from_json: no `return (..., <error code>)` found")
+    ecode = rets[-1].value.elts[-1].id
+    zero = [n for n in cfg.nodes if n.kind == "stmt" and isinstance(n.ast, ast.Assign) and any(is_name(t, ecode) for t in n.ast.targets)
+            and isinstance(n.ast.value, ast.Constant) and n.ast.value.value == 0]
+    if not comp or not zero:
+        raise AnalysisError("greedy_from_json: the call to compute / the assignment `error = 0` was not found")
+    ids = comp[-1].targets[0].elts[1].id
+    cnode = cfg.stmt_node(comp[-1])
+    for t in cfg.nodes:
+        if t.kind != "test" or not isinstance(t.owner, ast.If):
+            continue
+        def expand(a):
+            # a local assigned once in the function stands for its value
+            if isinstance(a, ast.Name) and a.id != ids:
+                defs = [n for n in own_nodes(f.node) if isinstance(n, ast.Assign) and any(is_name(tg, a.id) for tg in n.targets)]
+                if len(defs) == 1:
+                    return defs[0].value
+            return a
+        calls = [c for c in calls_in(t.ast) if any(is_name(a, ids) for a in c.args)
+                 and {"_mem_order", "_sto_order"} <= {x.attr for a in c.args for x in ast.walk(expand(a)) if isinstance(x, ast.Attribute)}]
+        if not calls:
+            continue
+        c = calls[0]
+        negated = isinstance(t.ast, ast.UnaryOp) and isinstance(t.ast.op, ast.Not) and t.ast.operand is c
+        if not (negated or t.ast is c):
+            continue
+        fail_branch = t.owner.body if negated else t.owner.orelse
+        if not fail_branch or not isinstance(fail_branch[-1], (ast.Raise, ast.Return)):
+            res = (False, f"the order post-check `{short(t.ast, 60)}` does not refuse the sequence when it fails")
+            continue
+        if not cfg.dominates(cnode, t) or not all(cfg.edge_dominated_by_branch(z, t, "F" if negated else "T") for z in zero):
+            res = (False, f"the order post-check `{short(t.ast, 60)}` is not on every path from compute to `error = 0`")
+            continue
+        tg = ctx.r.resolve_call(f, c)
+        if len(tg) != 1:
+            res = (False, f"the order post-check `{short(c, 60)}` is not resolved to one function")
+            continue
+        chk = tg[0]
+        pos_ids = next(i for i, a in enumerate(c.args) if is_name(a, ids))
+        mi = ModuleInterp(ctx, max_steps=100000)
+        names = ["A", "B", "C"]
+        wrong = None
+        n = 0
+        seqs = [list(p_) for k in (2, 3) for p_ in itertools.permutations(names, k)] + [["X"] + list(p_) for p_ in itertools.permutations(names, 3)]
+        seqs += [[a, b, a] for a in names for b in names if a != b] + [[a, b, a, "C"] for a in ("A", "B") for b in ("A", "B") if a != b]
+        pairs = [[a, b] for a in names for b in names if a != b]
+        for seq in seqs:
+            for k in (1, 2):
+                for deps in itertools.combinations(pairs, k):
+                    args = [None, None]
+                    args[pos_ids] = list(seq)
+                    args[1 - pos_ids] = [list(d) for d in deps]
+                    try:
+                        got = mi.call(chk, *args)
+                    except Raised as e:
+                        got = False         # refusing by raising is refusing
+                    except Unsupported as e:
+                        raise AnalysisError(f"{chk.name}: cannot evaluate abstractly: {e}")
+                    n += 1
+                    definitely_wrong = any(a in seq and b in seq and seq.index(a) > seq.index(b) for a, b in deps)
+                    if got and definitely_wrong and wrong is None:
+                        wrong = (seq, [list(d) for d in deps])
+        if wrong:
+            res = (False, f"{chk.name} accepts the sequence {wrong[0]} although the pairs {wrong[1]} demand the opposite order")
+        else:
+            res = (True, {"guard": short(t.ast, 80), "checker": chk.qual, "sequences_and_pair_sets_evaluated": n, "line": t.ast.lineno})
+            break
+    ctx.cache["C04.order_guard"] = res
+    return res
+
+
+def rule_k(ctx, out):
+    """Whatever the scheduling heuristics do, greedy_from_json reports success only for a sequence in which every declared ordering pair is
+    respected: the order post-check of `order_guard` (structure + meaning).  With it, a mis-ordering by sort_with_deps / merge / compute
+    costs the block its greedy solution (error = 1) and nothing else; C04.h and C04.j then record such mis-orderings as refused, not as
+    violations."""
+    holds, detail = order_guard(ctx)
+    if holds:
+        out.ok(detail)
+    else:
+        out.bad("greedy_from_json:order-post-check-missing", f"greedy_from_json can return error = 0 for a sequence that does not respect a declared dependence: "
+                f"{detail}", where(ctx.func(f"{GREEDY}.greedy_from_json")))
+
+
 def rule_h(ctx, out):
     """The order in which greedy emits the memory (storage) operations respects every declared dependence.  sort_with_deps is
     evaluated abstractly on every transitively reduced dependence relation over up to two loads and three stores in every program
@@ -596,7 +706,8 @@ def rule_h(ctx, out):
             for order in sorted(set(itertools.permutations(["L"] * nl + ["S"] * ns))):
                 li, si = iter(loads), iter(stores)
                 seq = [next(li) if c == "L" else next(si) for c in order]
-                cands = [(i, j) for i in range(len(seq)) for j in range(i + 1, len(seq)) if not (seq[i].startswith(ld) and seq[j].startswith(ld))]
+                # (a pair of two loads is a dependence as well: the front-end lists `the value of one load is the address of the other`)
+                cands = [(i, j) for i in range(len(seq)) for j in range(i + 1, len(seq))]
                 for mask in range(1 << len(cands)):
                     red = frozenset(reduction(closure({(seq[i], seq[j]) for k, (i, j) in enumerate(cands) if mask >> k & 1})))
                     if (tuple(seq), red) in seen:
@@ -606,9 +717,15 @@ def rule_h(ctx, out):
                     opid = {x: ({"outpt_sk": [f"v{x}"], "inpt_sk": ["a" + x]} if x.startswith(ld) else {"outpt_sk": [], "inpt_sk": ["a" + x, "b" + x]}) for x in seq}
                     varmap = {f"v{x}": {"inpt_sk": ["a" + x]} for x in loads}
                     n += 1
+                    load_pairs = any(a.startswith(ld) and b.startswith(ld) for a, b in deps)
                     try:
                         res = mi.call(f, list(stores), deps, opid, varmap)
                     except Raised as e:
+                        if load_pairs and "Assertion" in e.what:
+                            # a chain of loads in front of a store trips the level assertions: the greedy gives the block up (error = 1,
+                            # `PUSH 0 SLOAD SLOAD PUSH 1 PUSH 2 SSTORE`), which C04 allows — it speaks about the sequences that are returned
+                            out.ok()
+                            continue
                         out.bad(f"memory-order:{kind}:raises", f"sort_with_deps raises {e.what} for the program order {seq} with dependences {deps}", where(f))
                         continue
                     except Unsupported as e:
@@ -618,6 +735,8 @@ def rule_h(ctx, out):
                         continue
                     scheduled = list(res[0]) + list(res[1])
                     need = set(stores) | {x for p_ in deps for x in p_}
+                    # a load whose successors are all loads need not be listed: it is computed when its consumer is (data flow)
+                    need -= {x for x in need if x.startswith(ld) and not any(a == x and b.startswith(st) for a, b in deps)} - set(scheduled)
                     prob = None
                     if len(set(scheduled)) != len(scheduled):
                         prob = ("scheduled-twice", "an operation is scheduled twice")
@@ -625,6 +744,8 @@ def rule_h(ctx, out):
                         prob = ("not-scheduled", f"{sorted(need - set(scheduled))} is not scheduled")
                     else:
                         for a, b in deps:
+                            if a not in scheduled or b not in scheduled:
+                                continue
                             if scheduled.index(a) > scheduled.index(b):
                                 deferred = a in res[1]
                                 prob = ("load-deferred-past-its-store" if deferred else "dependence-reversed", f"{a} must precede {b} but is "
@@ -632,6 +753,12 @@ def rule_h(ctx, out):
                                 break
                     if prob is None:
                         out.ok()
+                    elif (prob[0] in ("load-deferred-past-its-store", "dependence-reversed")
+                          or (prob[0] == "not-scheduled" and all(x.startswith(ld) for x in need - set(scheduled)))) and order_guard(ctx)[0]:
+                        # (a load that is left out of the order is computed when its consumer is: too late for the store it must precede)
+                        # a mis-ordering by the scheduler: the sequence built from it is refused by the order post-check (C04.k)
+                        out.ok()
+                        out.info["misorderings_refused_by_the_post_check"] = out.info.get("misorderings_refused_by_the_post_check", 0) + 1
                     else:
                         out.bad(f"memory-order:{kind}:{prob[0]}", f"sort_with_deps, program order {seq}, dependences {deps}: {prob[1]} (order {list(res[0])}, deferred {list(res[1])})",
                                 where(f), {"program_order": seq, "dependences": deps})
@@ -694,7 +821,8 @@ def rule_j(ctx, out):
                     (["SSTORE_0", "SSTORE_1"], ["SLOAD_0"])]
         if sval == "y":
             s_orders = [(so, fin) for so, fin in s_orders if "SSTORE_1" in so]
-            s_orders = [(so[:so.index("SSTORE_1")] + ["MLOAD_0"] + so[so.index("SSTORE_1"):], fin) for so, fin in s_orders]
+            # the memory load sits right before the store that takes its result, or anywhere earlier (loads of one level come in any order)
+            s_orders = [(so[:k] + ["MLOAD_0"] + so[k:], fin) for so, fin in s_orders for k in range(so.index("SSTORE_1") + 1)]
         for (mo, mfin), (so, sfin) in itertools.product(m_orders, s_orders):
             # what the two orders, the final loads and the data flow demand: a < b  (orders only constrain pairs with a store)
             need = set()
@@ -741,6 +869,10 @@ def rule_j(ctx, out):
                 out.ok()
             elif lost:
                 out.bad("merge:access-lost", f"merge({mo}, {so}, final loads {mfin} / {sfin}) = {res}: {lost} are in none of the positions", where(f))
+            elif order_guard(ctx)[0]:
+                # mis-ordered by the merge: the sequence built from it is refused by the order post-check (C04.k), the block keeps its code
+                out.ok()
+                out.info["misorderings_refused_by_the_post_check"] = out.info.get("misorderings_refused_by_the_post_check", 0) + 1
             else:
                 a, b = broken[0]
                 kind = "final-load" if b in mfin + sfin else "shared-access" if (a in mo and a in so) or (b in mo and b in so) or a in sfin + mfin else "order"
@@ -778,6 +910,9 @@ def rule_j(ctx, out):
                 out.ok()
             elif lost:
                 out.bad("merge:access-lost", f"merge({mo}, {so}) = {res}: {lost} are in none of the positions", where(f))
+            elif order_guard(ctx)[0]:
+                out.ok()
+                out.info["misorderings_refused_by_the_post_check"] = out.info.get("misorderings_refused_by_the_post_check", 0) + 1
             else:
                 a, b = broken[0]
                 out.bad("merge:order-not-kept:store-needing-two-reads", f"merge({mo}, {so}) = {res} where MSTORE_0 stores ADD(SLOAD_0, SLOAD_1): {a} must come before {b} "
@@ -788,6 +923,7 @@ def rule_j(ctx, out):
 
 
 RULES = [
+    ("C04.k", "success is reported only for a sequence that passed the order post-check", 1, rule_k),
     ("C04.j", "merging the memory and storage schedules keeps both orders (shared accesses, final loads)", 30, rule_j),
     ("C04.i", "store selections of the greedy cover byte stores", 4, rule_i),
     ("C04.h", "the memory/storage schedule respects every dependence", 300, rule_h),
